@@ -88,6 +88,18 @@ func runC06WireCase(run *ev.Run, cs c06WireCase) {
 			return
 		}
 	}
+	// This server answers every request it can parse, so an exchange without a response is the
+	// environment's doing (a 20 s client timeout on a starved machine, a reset connection), not
+	// something the case provoked: the request may or may not have been on the wire, and the
+	// requests can no longer be matched to the targets by position. Such a case is not judged;
+	// provoked failures are the business of the other C06 cases.
+	for _, r := range got {
+		if r.Code == 0 && r.Error != "" {
+			run.Count("wire_cases_not_judged_unprovoked_transport_failure", 1)
+			run.Sample(map[string]any{"wire_case_not_judged": cs, "unprovoked_failure": r.Error, "results": len(got), "requests_on_the_wire": len(reqs)})
+			return
+		}
+	}
 	run.Eval(1)
 	run.Count("wire_attacks", 1)
 	run.Count("wire_requests", int64(len(reqs)))
@@ -100,7 +112,11 @@ func runC06WireCase(run *ev.Run, cs c06WireCase) {
 		run.Violate("C06/wire/"+clause, fmt.Sprintf("%+v: %s", cs, note), d)
 	}
 	if len(got) != cs.Hits || len(reqs) != cs.Hits {
-		viol("exchange-count", fmt.Sprintf("%d targets, %d results, %d requests on the wire", cs.Hits, len(got), len(reqs)), -1)
+		codes := map[uint16]int{}
+		for _, r := range got {
+			codes[r.Code]++
+		}
+		viol("exchange-count", fmt.Sprintf("%d targets, %d results (by status code: %v), %d requests on the wire", cs.Hits, len(got), codes, len(reqs)), -1)
 		return
 	}
 	conns := map[int]bool{}
